@@ -4,6 +4,7 @@ import Driver.Run
 import Driver.Load
 import Driver.Bind
 import Driver.LexDrv
+import Driver.Lit
 open Lean
 
 partial def loop (h : IO.FS.Stream) (out : IO.FS.Stream) (f : Json → Json) : IO Unit := do
@@ -22,6 +23,7 @@ def generic (g : DrvRun.GOracle) (j : Json) : Json :=
   | "load" => DrvLoad.load g j
   | "bind" => DrvBind.bind j
   | "lex" => DrvLex.lex j
+  | "lit" => DrvLit.lits g j
   | "lncol" => DrvC17.lncol j
   | k => J.obj [("id", J.get j "id"), ("agree", false), ("spec", true), ("note", s!"unknown kind {k}")]
 
